@@ -572,6 +572,8 @@ def main(argv):
             "trusted_base": trusted,
             "samples": samples or [{"note": "no contracted function"}],
             "functions_under_contract": functions,
+            "distinct_functions_under_contract": len({f["id"].split("/", 1)[1] for f in functions}),
+            "note_on_counts": "helper functions of specs/prelude/core_types.rs (SourceSpan::*, Label::span) are re-verified in every unit that includes them; obligations counts them once per unit, distinct_functions_under_contract counts each function once",
             "units": [{"unit": r["unit"], "status": r["status"], "verus_verified_count": r["verified"], "wall_s": round(r["wall"], 2)} for r in recs],
             "backend": "verus/z3",
             "solver_time_s": round(solver_us / 1e6, 3),
